@@ -97,7 +97,24 @@ def use_everywhere(g):
         lambda s: g.line_graph(),
         lambda s: (len(g), list(g), [g[i] for i in range(len(g))]),
     ]
-    for c in calls:
+    # calls that must be (and are) refused come first and last: too few flags, ints / None for flags, integer arrays for flags.  A refused
+    # call must leave nothing behind on the Graph object either.
+    bad = [
+        lambda s: graph.active_edges_acyclic(s, s.bool_array(max(0, m - 1)), g),
+        lambda s: graph.active_edges_acyclic(s, [1] * m, g),
+        lambda s: graph.active_edges_acyclic(s, [None] * m, g),
+        lambda s: graph.active_edges_single_cycle(s, s.bool_array(max(0, m - 1)), g, use_graph_primitive=False),
+        lambda s: graph.active_edges_single_cycle(s, [2] * m, g, use_graph_primitive=True),
+        lambda s: graph.active_vertices_connected(s, s.bool_array(max(0, n - 1)), g, use_graph_primitive=False),
+        lambda s: graph.active_vertices_connected(s, [0.5] * n, g, acyclic=True),
+        lambda s: graph.active_vertices_not_adjacent(s, s.bool_array(max(0, n - 1)), g),
+        lambda s: graph.active_vertices_not_adjacent_and_not_segmenting(s, s.int_array(n, 0, 1), g),
+        lambda s: graph.division_connected(s, s.int_array(max(0, n - 1), 0, 1), 2, g),
+        lambda s: graph.division_connected(s, s.int_array(n, 0, 1), 2, g, roots=["x"]),
+        lambda s: graph.division_connected_variable_groups(s, graph=g, group_size=[None] * max(0, n - 1)),
+        lambda s: graph.division_connected_variable_groups_with_borders(s, group_size=[None] * n, is_border=s.bool_array(max(0, m - 1)), graph=g, use_graph_primitive=False),
+    ]
+    for c in bad + calls + bad:
         try:
             c(Solver())
         except Exception:
@@ -202,6 +219,8 @@ def layer_graphs():
         out.append((6, [(0, 1), (1, 2), (2, 0), (3, 4), (4, 5), (5, 3)]))
         out.append((7, [(0, 1), (1, 2), (2, 0), (3, 4), (4, 5), (5, 6), (6, 3)]))
         out.append((4, [(0, 1), (1, 2), (2, 3)]))
+        out.append((4, [(0, 1), (1, 2), (2, 3), (3, 0)]))
+        out.append((4, [(0, 1), (1, 2), (2, 0), (2, 3), (3, 0)]))
         LAYER_GRAPHS = out
     return LAYER_GRAPHS
 
@@ -210,7 +229,7 @@ def run_two_layers(part, key, case, post, nvars, oracle, menu):
     """The same constraint posted TWICE on one Solver with one Graph object and two independent variable arrays: the
     program must admit exactly the pairs (p1, p2) with oracle(p1) and oracle(p2) (state kept on the Graph, the Solver or
     the module between the two calls shows here).  p1 ranges over all 2^nvars patterns, p2 over `menu` (all patterns when
-    nvars <= 3)."""
+    nvars <= 5)."""
     from cspuz import Solver
 
     s = Solver()
@@ -221,7 +240,7 @@ def run_two_layers(part, key, case, post, nvars, oracle, menu):
     except Exception as e:
         part.violation(key + ":build-raises-" + type(e).__name__, case, {"exception": repr(e)[:300]})
         return
-    seconds = list(patterns(nvars)) if nvars <= 3 else [tuple(bool(b) for b in p) for p in menu]
+    seconds = list(patterns(nvars)) if nvars <= 5 else [tuple(bool(b) for b in p) for p in menu]
     for p1 in patterns(nvars):
         e1 = oracle(p1)
         for p2 in seconds:
